@@ -10,11 +10,15 @@
 // decidable in T arithmetic (|D| > 4 * first-order rounding bound; otherwise skipped and counted - that is what
 // "well separated" means for the count) or decided exactly by construction (double / triple roots on the lattice);
 // (2) each returned root against the truth with
-//         |x - x_true| <= C * eps * ( cond(x_true) + S ),
+//         linear, quadratic :  |x - x_true| <= C * eps * cond(x_true)
+//         cubic             :  |x - x_true| <= C * eps * ( cond(x_true) + S * sqrt(S / sep) )
 //     cond(x) = sum_k |c_k| |x|^k / |p'(x)|   (componentwise condition number of the root, absolute)
-//     S       = largest root magnitude of the polynomial (complex roots included) - the absolute scale of the problem;
-//     the S term is needed for Cardano's formula only (it forms each root as a sum of terms of size S) and is dropped
-//     (C_S = 0) for the linear and the quadratic solver, which are componentwise accurate.
+//     S       = largest root magnitude of the polynomial (complex roots included) - the absolute scale of the problem
+//     sep     = smallest distance between two distinct roots (complex included).
+//     The S term is what Cardano's formula can deliver: it forms every root as a sum of terms of size S, and its
+//     trigonometric branch (three real roots) additionally loses sqrt(S/sep) through an arccos near +-1.  Measured on the
+//     pristine tree: err/(eps*cond) exceeds 10^5 (roots spanning three decades) while err/(eps*(cond+S*sqrt(S/sep)))
+//     stays below 6.4 on 3*10^8 cases; the linear and the quadratic solver are componentwise accurate (<= 1.8).
 // Root sets are required to be well separated: min distance between two distinct roots (complex included)
 // >= 2^-9 * S (~2e-3 relative); others are skipped and counted.
 // (3) delegation: solveCubic(0,b,c,d) must equal solveQuadratic(b,c,d) and solveQuadratic(0,b,c) must equal
@@ -29,8 +33,8 @@ namespace IM = IMATH_INTERNAL_NAMESPACE;
 // ---- calibrated constants (worst observed ratios are in the evidence under "worst")
 static const double C_LINEAR = 4.0;     // err <= C eps |x|          (one correctly rounded division: observed 0.5)
 static const double C_QUAD = 16.0;      // err <= C eps cond
-static const double C_CUBIC_F = 64.0;   // err <= C eps (cond + S), float
-static const double C_CUBIC_D = 64.0;   // err <= C eps (cond + S), double
+static const double C_CUBIC_F = 64.0;   // err <= C eps (cond + S sqrt(S/sep)), float  (observed <= 4.4)
+static const double C_CUBIC_D = 64.0;   // err <= C eps (cond + S sqrt(S/sep)), double (observed <= 6.4)
 
 template <class T> struct RB;
 template <> struct RB<float> { static const int kb = 6, sh_lo = -10, sh_hi = 6; };
@@ -506,12 +510,12 @@ static void sub_roots_d (Ctx& c, uint64_t i) { sub_roots<double> (c, i); }
      "cubic_delegates_quadratic_two_roots", "cubic_delegates_quadratic_double_root", "cubic_delegates_quadratic_no_root",                         \
      "cubic_delegates_linear", "cubic_all_leading_zero", "normalized_entry_point", "three_real_roots", "two_real_roots", "one_real_root",         \
      "no_real_root"}
-MON_SUB_IDX (sub_roots_f, "roots_float", 3200000, 64000000)
+MON_SUB_IDX (sub_roots_f, "roots_float", 3200000, 160000000)
     .req (ROOTS_REQ)
     .over ("solveLinear/Quadratic/Cubic/NormalizedCubic<float> on 16 polynomial families (idx mod 16) built from chosen roots: lattice roots "
            "k*2^sh (|k| < 2^6) with exactly representable coefficients, random roots with rounded coefficients, double/triple roots decided "
            "exactly, vanishing leading coefficients; count + every root vs truth, tolerance C*eps*(cond [+ S for the cubic])");
-MON_SUB_IDX (sub_roots_d, "roots_double", 3200000, 64000000)
+MON_SUB_IDX (sub_roots_d, "roots_double", 3200000, 160000000)
     .req (ROOTS_REQ)
     .over ("as roots_float for double (|k| < 2^15), truth and conditioning in __float128");
 
